@@ -557,13 +557,8 @@ func ruleW5(r *Run) {
 	hasRecover := func(fd *ast.FuncDecl) bool {
 		found := false
 		ast.Inspect(fd.Body, func(n ast.Node) bool {
-			if d, ok := n.(*ast.DeferStmt); ok {
-				ast.Inspect(d, func(m ast.Node) bool {
-					if c, ok := m.(*ast.CallExpr); ok && IsBuiltin(info, c, "recover") {
-						found = true
-					}
-					return true
-				})
+			if d, ok := n.(*ast.DeferStmt); ok && p.deferRecovers(info, d) {
+				found = true
 			}
 			return true
 		})
